@@ -240,6 +240,10 @@ func splitPlane(b r2.Box, dir int) r2.Box {
 
 // summarize updates node masses and centers of mass.
 func (t *tile) summarize() (center r2.Vec, mass float64) {
+	if t.particle != nil {
+		// A leaf already holds the position and mass of its particle.
+		return t.center, t.mass
+	}
 	for _, d := range &t.nodes {
 		if d == nil {
 			continue
